@@ -209,6 +209,27 @@ def main(argv: List[str]) -> int:
         else:
             rep.violation({k: it[k] for k in it if k != 'tid'}, {'failing_clause': v, 'diffs': r['diffs'][:10], **extra})
     rep.notes['histories'] = len(hs)
+    # vacuity guard: every kind of edit was applied (not skipped) in some judged history; kind edits reached and left many-to-many
+    ops = {}
+    for _, d in hs:
+        m = d['model']
+        for h in d['history']:
+            e = h['edit']
+            k = e['op']
+            if k == 'ref_type':
+                was = m['refs'][e['r'] - 1]['type']
+                k = 'ref_type:' + ('to_m2m' if e['v'] == '<>' and was != '<>' else 'from_m2m' if was == '<>' and e['v'] != '<>' else 'plain')
+            if k == 'col_type':
+                k = 'col_type:' + e['ty']['k']
+            ops[k] = ops.get(k, 0) + 1
+            m = h['after']
+    rep.notes['edits_applied'] = dict(sorted(ops.items()))
+    want = ['table_name', 'table_schema', 'table_alias', 'table_note', 'col_name', 'col_type:str', 'col_type:enum', 'col_flag', 'col_default',
+            'col_note', 'enum_name', 'ref_type:plain', 'ref_type:to_m2m', 'ref_type:from_m2m', 'ref_inline', 'ref_name', 'ref_actions',
+            'add_column', 'add_index', 'remove_index', 'dup_index', 'add_enum_item']
+    never = [k for k in want if not ops.get(k)]
+    if never:
+        raise core.Machinery('C10: edits never applied in any history: %s' % never)
     rep.samples.append({'seed': hs[0][0], 'edits': [h['edit'] for h in hs[0][1]['history']]})
     return rep.finish()
 
